@@ -40,6 +40,17 @@ CLAIMED.update({
  "C19": dict(text="set_operation_mode(m, p, s) then get_operation_mode() == m for every offered mode, eco v1/v2, 745 scaling, ET and ES, for all p, s and all decodable prior group contents, against the assumed register-file inverter; requested power/SoC in group 1 and other groups off; export limit / DoD round trips; encoder lemma exhaustively on the whole grid natively; ECO with a 24/7 prior group is a known finding",
              note="E1/E2 assumptions (inverter model, ES AA55 command semantics)", ref="4/C19"),
 })
+SM = "transport state machine verified as a monitor: every callback and every await-free stretch of send_request/execute/close is a segment executed from an arbitrary state satisfying the object invariant (I1 binding, I2 pending=>timeout armed, I4 retry within budget, I5 fragment state, I6 open transports); awaits havoc what callbacks may change and re-assume the invariant; recursion by contract. "
+SMNOTE = "trusted: ghost model of asyncio (pyvc/aio_env.py, T4), atomic segments (T5), A1 (data only after a transmission), single requesting task for counting; real-time spacing and OS sockets are not decided"
+CLAIMED.update({
+ "C04": dict(text=SM + "C04: transmissions per request <= retries - _retry + 1 on every exit, callbacks never transmit nor refill the budget, a pending future always has a timeout armed, timeouts use self.timeout / the literal 5", note=SMNOTE, ref="4/C04"),
+ "C05": dict(text=SM + "C05: _retry == 0 on every exit of send_request (and reset exactly when the answer is delivered); connect/discover/search_inverters and the inverter constructors hand the configured (timeout, retries) to every protocol object that transmits (symbolic timeout/retries)", note=SMNOTE + "; stale-timer ordering not decided", ref="4/C05"),
+ "C06": dict(text=SM + "C06: transmissions only while the lock is held by the requesting task, lock free on every exit and before re-entering, command/future binding untouched by callbacks, a result only reaches the future of the command in flight", note=SMNOTE + "; the 'own answer' clause holds under the property's own proviso (answers arrive at most once and in time)", ref="4/C06"),
+ "C07": dict(text=SM + "C07: Partial(len, expected) contract of the three validators (both directions) + callbacks: fragment held with the missing count, timeout re-armed, future untouched; composition only of the held fragment with a datagram of exactly the missing length and the validator sees exactly that concatenation; every transmission clears the fragment", note=SMNOTE, ref="4/C07"),
+ "C08": dict(text=SM + "C08: validators raise RequestRejectedException(reason(code)) for every exception frame and all 256 codes (literal texts for 1,2,3, UNKNOWN outside the standard codes); callbacks forward the same exception to a pending future without retransmission; no handler between the future and the public call catches it (ground); consumers compare with the constant", note=SMNOTE, ref="4/C08"),
+ "C09": dict(text=SM + "C09: callbacks raise nothing; send_request raises only rejection/OSError; execute only RequestFailed/Rejected/MaxRetries; _read_from_socket counter arithmetic (success 0, failure +1 and reported, rejection unchanged); every public read-only coroutine and connect/discover/search_inverters raise only InverterError (+documented ValueError) under every transport outcome; two getters are a known finding", note=SMNOTE, ref="4/C09"),
+ "C10": dict(text=SM + "C10: open transports are at most the current one (I6) in every segment; without keep-alive nothing is open after send_request(UDP)/execute; nothing open after close()", note=SMNOTE + "; OS-level descriptors and loop ordering (A2) not decided", ref="4/C10"),
+})
 REASONS = {}
 checks = []
 for p in props:
